@@ -19,11 +19,17 @@ const FLOATS: [f64; 30] = [
 ];
 const CHANNELS: [f64; 14] = [0.0, 1.0, 0.5, 0.25, 0.1, 0.123456789, 0.9996, 0.0004, 0.0005, 0.9995, 1e-10, 0.3333333333333333, 0.75, 0.0015];
 const NAMES: [&str; 9] = ["a", "A.alt", "a b", "\u{e9}", "\u{1d538}x", "<&>\"'", " lead", "trail ", "_"];
-const STRS: [&str; 14] = [
+// DEL and the C1 controls are legal XML characters; the other C0 controls are not (an independent
+// reader rejects the file) but norad writes and reads them
+const STRS: [&str; 22] = [
     "v", "a b", "x&y<z>", " lead", "trail ", "", "\u{e9}\u{1d538}", "\"q\"'", "l1\nl2", "a\n", "\n\n", "tab\tx", "cr\rx", "]]>",
+    "a\u{7f}b", "\u{85}nel first", "last\u{9f}", "\u{80}", "form\u{c}feed", "\u{1}start", "end\u{1f}", "\u{7f}",
 ];
-const KEYS: [&str; 8] = ["k1", "k2", "com.x.y", "a key", "\u{e9}", "<&>", "z", "multi\nline"];
-const NOTES: [&str; 9] = ["hello", "a<b & c>d", "line1\n  line2", "\u{e9}", " lead", "trail ", "", "  ", "x"];
+const KEYS: [&str; 12] = ["k1", "k2", "com.x.y", "a key", "\u{e9}", "<&>", "z", "multi\nline", "k\u{7f}", "\u{85}k\u{9f}", "k\u{c}", "\u{80}"];
+const NOTES: [&str; 17] = [
+    "hello", "a<b & c>d", "line1\n  line2", "\u{e9}", " lead", "trail ", "", "  ", "x",
+    "a\u{7f}b", "\u{85}start", "end\u{9f}", "\u{80}mid\u{85}", "first page\u{c}second", "\u{1b}x", "x\u{b}", "\u{7f}",
+];
 const TYPES: [PointType; 5] = [PointType::Move, PointType::Line, PointType::OffCurve, PointType::Curve, PointType::QCurve];
 
 fn seq_legal(pts: &[(u8, bool)]) -> bool {
@@ -136,12 +142,22 @@ impl<'a> G<'a> {
         }
         t
     }
+    /// texts with a character XML forbids take the written file out of the independent reader's
+    /// (and the model's) reach: keep them to a few per cent of the glyphs
+    fn rarely_c0(&mut self, t: &'static str) -> &'static str {
+        if t.chars().any(|c| (c as u32) < 32 && !matches!(c, '\t' | '\n' | '\r')) && !self.rng.chance(1, 6) {
+            "v"
+        } else {
+            t
+        }
+    }
     fn pv(&mut self, depth: u32) -> plist::Value {
         let k = if depth >= 3 { self.rng.below(7) } else { self.rng.below(10) };
         match k {
             0 | 1 => {
                 let hard = self.rng.below(64) < self.hard;
-                plist::Value::String(if hard { *self.rng.pick(&STRS) } else { *self.rng.pick(&STRS[..8]) }.to_string())
+                let t = if hard { *self.rng.pick(&STRS) } else { *self.rng.pick(&STRS[..8]) };
+                plist::Value::String(self.rarely_c0(t).to_string())
             }
             2 => plist::Value::Integer(match self.rng.below(6) {
                 0 => 1i64.into(),
@@ -168,6 +184,7 @@ impl<'a> G<'a> {
         for _ in 0..n {
             let hard = self.rng.below(64) < self.hard;
             let k = if hard { *self.rng.pick(&KEYS) } else { *self.rng.pick(&KEYS[..7]) };
+            let k = self.rarely_c0(k);
             let v = self.pv(depth);
             d.insert(k.to_string(), v);
         }
@@ -192,7 +209,8 @@ impl<'a> G<'a> {
         g.codepoints = Codepoints::new((0..ncp).map(|_| *self.rng.pick(&['A', 'a', '\u{1F600}', '\u{10FFFF}', '\0', '\u{E9}', 'B'])));
         if self.rng.chance(1, 2) {
             let hard = self.rng.below(64) < self.hard;
-            g.note = Some(if hard { *self.rng.pick(&NOTES) } else { *self.rng.pick(&NOTES[..4]) }.to_string());
+            let t = if hard { *self.rng.pick(&NOTES) } else { *self.rng.pick(&NOTES[..4]) };
+            g.note = Some(self.rarely_c0(t).to_string());
         }
         if self.rng.chance(1, 3) {
             let f = *self.rng.pick(&["a.png", "img 1.png", "\u{e9}.png", "<&>.png"]);
@@ -730,7 +748,11 @@ fn emit_ex(out: &mut String, id: i64, g: &Glyph, valid: bool, why: &str, ch: u8,
     if hist.is_some() || !uids.is_empty() {
         case_v.push(Xt::L(vec![Xt::N(hist.map_or(0, |h| h.save as u64)), Xt::L(uids.iter().map(upos_xt).collect())]));
     }
-    let case = Xt::L(case_v);
+    let size = g.anchors.len() + g.guidelines.len() + g.components.len() + g.contours.len()
+        + g.contours.iter().map(|c| c.points.len()).sum::<usize>() + g.codepoints.iter().count() + g.lib.len();
+    // glyphs too large for the Coq evaluation: the implementation-side oracle only
+    let nomodel = size > 160;
+    let case = if nomodel { Xt::L(vec![]) } else { Xt::L(case_v) };
     let cls = classes(g, count);
     let (bytes, enc_status, reparse, verdict, field) = match enc {
         Err(msg) => (vec![], format!("PANIC {}", msg), Xt::L(vec![]), "encode-panic".to_string(), String::new()),
@@ -782,7 +804,7 @@ fn emit_ex(out: &mut String, id: i64, g: &Glyph, valid: bool, why: &str, ch: u8,
     let _ = std::fmt::Write::write_fmt(
         out,
         format_args!(
-            "{{\"id\":{},\"valid\":{},\"why\":{},\"opts\":[{},{},{}],\"classes\":{},\"enc\":{},\"verdict\":{},\"field\":{},\"decl_ok\":{},\"l1_fail\":{},\"case\":{},\"reparse\":{},\"bytes\":{},\"corpus\":{},\"hist\":{},\"hist_diff\":{}}}\n",
+            "{{\"id\":{},\"valid\":{},\"why\":{},\"opts\":[{},{},{}],\"classes\":{},\"enc\":{},\"verdict\":{},\"field\":{},\"decl_ok\":{},\"l1_fail\":{},\"case\":{},\"reparse\":{},\"bytes\":{},\"corpus\":{},\"hist\":{},\"hist_diff\":{},\"nomodel\":{}}}\n",
             id,
             valid,
             json_str(why),
@@ -809,7 +831,8 @@ fn emit_ex(out: &mut String, id: i64, g: &Glyph, valid: bool, why: &str, ch: u8,
                     serde_json::to_string(&h.desc).unwrap()
                 ),
             },
-            json_str(&hist_diff)
+            json_str(&hist_diff),
+            nomodel
         ),
     );
 }
@@ -1013,7 +1036,91 @@ fn run_history(seed: u64, n: u64, dir: &std::path::Path) -> String {
     .unwrap_or_default()
 }
 
+/// a valid glyph of a chosen size: [n_ids] objects with identifiers (some with libs), [n_plain]
+/// without, [n_uni] code points, [n_keys] lib keys
+fn big_glyph(rng: &mut Rng, n_ids: usize, n_plain: usize, n_uni: usize, n_keys: usize) -> Glyph {
+    let mut g = Glyph::new("big");
+    g.width = 500.0;
+    g.codepoints = Codepoints::new((0..n_uni).filter_map(|u| char::from_u32(0x41 + u as u32)));
+    let mut pts: Vec<ContourPoint> = Vec::new();
+    let mut cids: Vec<Option<Identifier>> = Vec::new();
+    let mut clibs: Vec<bool> = Vec::new();
+    for j in 0..(n_ids + n_plain) {
+        let id = if j < n_ids { Some(Identifier::new(&format!("i{}", j)).unwrap()) } else { None };
+        let with_lib = id.is_some() && j % 3 == 0;
+        let mut lib = Plist::new();
+        lib.insert("n".into(), plist::Value::Integer((j as i64).into()));
+        match rng.below(5) {
+            0 => {
+                let mut p = ContourPoint::new(j as f64, 1.0, PointType::Line, false, None, id);
+                if with_lib {
+                    p.replace_lib(lib);
+                }
+                pts.push(p);
+            }
+            1 => {
+                cids.push(id);
+                clibs.push(with_lib);
+            }
+            2 => {
+                let mut c = Component::new(Name::new("b").unwrap(), AffineTransform::default(), id);
+                if with_lib {
+                    c.replace_lib(lib);
+                }
+                g.components.push(c);
+            }
+            3 => {
+                let mut a = Anchor::new(1.0, j as f64, None, None, id);
+                if with_lib {
+                    a.replace_lib(lib);
+                }
+                g.anchors.push(a);
+            }
+            _ => {
+                let mut a = Guideline::new(Line::Vertical(j as f64), None, None, id);
+                if with_lib {
+                    a.replace_lib(lib);
+                }
+                g.guidelines.push(a);
+            }
+        }
+    }
+    let per = 7;
+    let need = (pts.len() + per - 1) / per;
+    while cids.len() < need {
+        cids.push(None);
+        clibs.push(false);
+    }
+    let nc = cids.len();
+    let mut it = pts.into_iter();
+    for (ci, cid) in cids.into_iter().enumerate() {
+        let mut k: Vec<ContourPoint> = Vec::new();
+        let take = if ci + 1 == nc { usize::MAX } else { per };
+        for _ in 0..take {
+            match it.next() {
+                Some(p) => k.push(p),
+                None => break,
+            }
+        }
+        if k.is_empty() {
+            k.push(ContourPoint::new(0.0, 0.0, PointType::Line, false, None, None));
+        }
+        let mut c = Contour::new(k, cid);
+        if clibs[ci] {
+            let mut lib = Plist::new();
+            lib.insert("c".into(), plist::Value::Boolean(true));
+            c.replace_lib(lib);
+        }
+        g.contours.push(c);
+    }
+    for k in 0..n_keys {
+        g.lib.insert(format!("key{}", (k * 7919) % 100_003), plist::Value::String("v".into()));
+    }
+    g
+}
+
 pub fn main(a: &Args) {
+
     if std::env::var("VERIF_DEBUG").is_ok() {
         let _ = std::panic::take_hook();
     }
@@ -1082,6 +1189,34 @@ pub fn main(a: &Args) {
             emit(&mut out, k, &g, true, "", o[0].as_u64().unwrap_or(9) as u8, o[1].as_u64().unwrap_or(1) as usize, o[2].as_bool().unwrap_or(false), p.file_name().and_then(|x| x.to_str()).unwrap_or(""));
         }
         write_file(&a.out.join("cases_corpus.jsonl"), &out);
+        out.clear();
+    }
+    // sizes: every identifier count 0..70, some large ones; many objects without identifiers, many
+    // code points, many lib keys (thresholds in any per-glyph collection)
+    {
+        let mut specs: Vec<(usize, usize, usize, usize)> = Vec::new();
+        for k in 0..=70usize {
+            specs.push((k, (k * 3) % 5, k % 3, k % 4));
+        }
+        for k in [100usize, 150, 300, 1000] {
+            specs.push((k, 3, 1, 2));
+        }
+        for k in [41usize, 100, 1000] {
+            specs.push((0, k, 1, 0));
+        }
+        for k in [41usize, 300] {
+            specs.push((2, 2, k, 1));
+        }
+        for k in [41usize, 300, 1000] {
+            specs.push((1, 2, 1, k));
+        }
+        let mut r2 = rng.fork();
+        for (j, (n_ids, n_plain, n_uni, n_keys)) in specs.into_iter().enumerate() {
+            let g = big_glyph(&mut r2, n_ids, n_plain, n_uni, n_keys);
+            let o = (*r2.pick(&[b'\t', b' ']), *r2.pick(&[0usize, 1, 2]), r2.chance(1, 3));
+            emit(&mut out, -(50_000 + j as i64), &g, true, "", o.0, o.1, o.2, "");
+        }
+        write_file(&a.out.join("cases_sizes.jsonl"), &out);
         out.clear();
     }
     // write histories: sequences of writes on one thread each, failing ones included
